@@ -62,6 +62,8 @@ def gen_case(rs, tier):
             "n": krng.choice([2, 4, 4, 6]), "faults": faults}
     case["tier"] = tier
     case["sweep"] = W.stream(rs, "sweep").random() < (0.15 if tier == "thorough" else 0.04)
+    if case["sweep"]:
+        case["timeout"] = 150        # one workload, run once per fault placement
     return case
 
 
@@ -163,6 +165,14 @@ def run_one(case):
         w._set(M_utility, "combine_cnf_with_requests", combine)
         w._set(M_snu, "cryptominisat_solve", solve)
         w._set(M_su, "build_solution", build)
+        M_ugs = sys.modules.get("sweetpea._internal.sampling_strategy.unigen")
+        orig_su = getattr(M_ugs, "sample_uniform", None)
+        if strat == "UniGen" and callable(orig_su):
+            def su(*a, **k):
+                r = orig_su(*a, **k)
+                rec.setdefault("returned", []).append([list(x.assignment) for x in r])
+                return r
+            w._set(M_ugs, "sample_uniform", su)
         w._set(M_unigen, "parse_cnf_file", parse)
         # snapshot of the file at every peer invocation
         texts = []
@@ -273,6 +283,16 @@ def run_one(case):
                 if assignment != lits:
                     viols.append(("C27/output/build_solution", "line %r -> %r" % (line[:80], assignment[:12])))
                     break
+        if strat == "UniGen" and rec.get("returned") and not case.get("faults"):
+            # what the reader hands on is the peer's samples, all of them, in order, and nothing else the peer printed
+            got = [a for r in rec["returned"] for a in r]
+            want = [list(smp) for smp in w.unigen_samples]
+            if got != want:
+                viols.append(("C27/output/samples-read-differ-from-samples-written",
+                              "the sampler wrote %d samples, the reader returned %d; first difference at %s%s"
+                              % (len(want), len(got), next((i for i, (x, y) in enumerate(zip(got, want)) if x != y), min(len(got), len(want))),
+                                 " ; %d solutions were listed before the samples" % w.counters.get("peer.unigen-prelisted", 0)
+                                 if w.counters.get("peer.unigen-prelisted") else "")))
         viol = common.pick_violation(PROP, viols)
         if viol:
             base.update(outcome="violation", signature=viol[0], detail=viol[1] + " ; strategy=%s transport=%s ; design=%s" % (strat, case["knobs"]["transport"], dast.describe(ast)))
